@@ -40,7 +40,13 @@ type zzEnv struct {
 // symbolic (keeps the share arithmetic linear for the solvers; the general arithmetic is a separate kernel).
 var zzRatioGrid []int64
 
+// zzRatioFixed pins single percentage parameters (by tag) to one value.
+var zzRatioFixed map[string]int64
+
 func zzPercent(tag string) int64 {
+	if v, ok := zzRatioFixed[tag]; ok {
+		return v
+	}
 	if zzRatioGrid == nil {
 		return zzverif.NondetRange(tag, 0, 100)
 	}
